@@ -14,7 +14,7 @@
 (*   MeanOf  exact rational mean, floor; the code accumulates float64      *)
 (*           (conformance allows +-1)                                      *)
 (*   the weight test 10*(new-bg) < k is exact; at equality with k > 0      *)
-(*   float32 rounding decides (conformance allows either; k = 0 is exact)  *)
+(*   float32 rounding decides per pixel (conformance allows any subset)    *)
 (*   FixedCode: TRUE = after the "fix:" commits for the threshold clamp    *)
 (*           and the first-frame mean; FALSE = pinned commit               *)
 (***************************************************************************)
@@ -71,8 +71,12 @@ DInitWith(c) ==
 (* evaluate an expression once instead of once per reference.                                              *)
 DOnly(S) == CHOOSE r \in S : TRUE
 
-(* updateBackground: returns <<bg', bgw', avg, changed>>;  tie resolves the float32 tie *)
-UpdateBg(c, f, pFFC, tie) ==
+(* pixels at which float32 rounding decides the weight test (10*(new-bg) = k tenths with k > 0): the code's      *)
+(* float32(new) - weight is rounded depending on the magnitude of new, so every such pixel may go either way     *)
+TiePix(c, f) == {p \in Interior(c) : bgw[p[1]][p[2]] > 0 /\ 10 * (f[p[1]][p[2]] - bg[p[1]][p[2]]) = bgw[p[1]][p[2]]}
+
+(* updateBackground: returns <<bg', bgw', avg, changed>>;  ties = the tie pixels that are lowered *)
+UpdateBg(c, f, pFFC, ties) ==
   IF bgFrames = 0
   THEN DOnly({ <<nb, bgw, IF c.fixedCode THEN MeanOf(c, nb) ELSE 0, TRUE>> :
                nb \in {TLCEval([y \in 1..c.h |-> [x \in 1..c.w |-> LET n == Near(c, <<y, x>>) IN f[n[1]][n[2]]]])} })
@@ -84,8 +88,7 @@ UpdateBg(c, f, pFFC, tie) ==
                             IF <<y, x>> \in Interior(c) THEN (IF <<y, x>> \in low THEN 0 ELSE bgw[y][x] + 1)
                             ELSE bgw[y][x]]])} })
          : low \in {TLCEval({p \in Interior(c) :
-                       pFFC \/ 10 * (f[p[1]][p[2]] - bg[p[1]][p[2]]) < bgw[p[1]][p[2]]
-                       \/ (tie /\ bgw[p[1]][p[2]] > 0 /\ 10 * (f[p[1]][p[2]] - bg[p[1]][p[2]]) = bgw[p[1]][p[2]])})} })
+                       pFFC \/ 10 * (f[p[1]][p[2]] - bg[p[1]][p[2]]) < bgw[p[1]][p[2]] \/ p \in ties})} })
 
 (* Detect(frame): aff = isAffectedByFFC(frame); tie, slop resolve the two float deviations *)
 Detect(f, aff, tie, slop) ==
@@ -93,7 +96,9 @@ Detect(f, aff, tie, slop) ==
       upd == c.dyn /\ ~aff
       cap == c.gap + 1
       c1 == (flCur + 1) % cap
-  IN \E ub \in {IF upd THEN UpdateBg(c, f, prevFFC, tie) ELSE <<bg, bgw, 0, FALSE>>} :
+      tp == IF upd /\ tie /\ bgFrames > 0 THEN TiePix(c, f) ELSE {}
+  IN \E ties \in (IF Cardinality(tp) <= 10 THEN SUBSET tp ELSE {{}, tp}) :
+     \E ub \in {IF upd THEN UpdateBg(c, f, prevFFC, ties) ELSE <<bg, bgw, 0, FALSE>>} :
      \E th1 \in {IF upd /\ ub[4] /\ bgFrames + 1 > c.preview
                  THEN (IF c.fixedCode THEN ClampMean(c, ub[3] + slop) ELSE LegacyClamp(c, ub[3] + slop))
                  ELSE thresh} :
